@@ -33,52 +33,15 @@ func accessorRules(c *core.Ctx, r *core.Report, rule string, l *lifecycleRoles) 
 		r.Undecided(rule, "create"+cons, c.FnPos(acc), "no synchronous GetSingletonOrCreateByFactory call in the accessor")
 		return
 	}
-	name := acc.Params[len(acc.Params)-1]
-	okLookup := false
-	for _, lk := range lookups {
-		allow, isConst := lk.Common().Args[1].(*ssa.Const)
-		if !isConst || allow.Value == nil || allow.Value.String() != "true" {
-			continue
-		}
-		if core.Norm(lk.Common().Args[0]) != ssa.Value(name) || core.Norm(create.Common().Args[0]) != ssa.Value(name) {
-			continue
-		}
-		v := core.ResultValue(lk, 0)
-		if !core.OnNilErrEdge(lk, create) || !core.OnNilEdge(v, create) {
-			continue
-		}
-		// the hit is returned as is
-		hitReturned := false
-		for _, ret := range core.Returns(acc) {
-			if core.ClassifyReturn(ret) != core.RetError && core.OnNonNilEdge(v, ret) {
-				if core.Norm(ret.Results[0]) == v {
-					hitReturned = true
-				} else {
-					hitReturned = false
-					break
-				}
-			}
-		}
-		if hitReturned {
-			okLookup = true
-		}
+	// lookup before creation, hit returned, created returned: decided by interpretation, whatever the accessor's exits
+	ars, aruns, aund := accessorTable(c, l)
+	r.Count("accessor_table_runs", aruns)
+	if aund != "" {
+		r.Undecided(rule, "accessor-table"+cons, c.FnPos(acc), "abstract interpretation left the model: "+aund)
+	} else {
+		ars.report(c, r, acc, func(string) string { return rule }, "accessor-table"+cons, accessorRows)
+		smallModelCheck(c, r, rule, "accessor-table"+cons, acc, 4) // the table's one name has four characters
 	}
-	r.Check(okLookup, rule, "cache-before-create"+cons, c.Pos(create.Pos()),
-		"creation is attempted only on the nil edge of GetSingleton(name, allowEarly=true) for the same name, and a cache hit is returned unchanged")
-	// the created value is returned as is
-	cv := core.ResultValue(create, 0)
-	okRet := true
-	n := 0
-	for _, ret := range core.Returns(acc) {
-		if core.ClassifyReturn(ret) == core.RetError || !core.OnNilErrEdge(create, ret) {
-			continue
-		}
-		n++
-		if core.Norm(ret.Results[0]) != cv {
-			okRet = false
-		}
-	}
-	r.Check(okRet && n > 0, rule, "created-returned"+cons, c.Pos(create.Pos()), "what the registry returns from creation is handed on unchanged")
 	// accessor results originate only from the registry
 	okOrig := true
 	for _, ret := range core.Returns(acc) {
@@ -161,16 +124,26 @@ func creatorExclusive(c *core.Ctx, r *core.Report, rule string, l *lifecycleRole
 		}
 	}
 	if l.creator.Signature.Recv() == nil {
-		parent := l.creator.Parent()
-		okFlow = parent == l.accessor
-		if parent != nil {
-			for _, b := range parent.Blocks {
+		// a function literal of the accessor, or a method value bound there: every place the value is made lies in
+		// the accessor and the value flows only to the registry
+		n := 0
+		okFlow = true
+		for _, fn := range c.Scope {
+			for _, b := range fn.Blocks {
 				for _, in := range b.Instrs {
 					if mc, ok := in.(*ssa.MakeClosure); ok && mc.Fn == ssa.Value(l.creator) {
+						n++
+						if fn != l.accessor {
+							okFlow = false
+						}
 						follow(mc, 0)
 					}
 				}
 			}
+		}
+		okFlow = okFlow && n > 0
+		if m := resolveWrapper(l.creator); m != l.creator {
+			okFlow = okFlow && m != nil && len(c.Callers(m)) == 0
 		}
 	} else {
 		// factory object: every allocation of its type lies in the accessor and flows only to the registry
